@@ -26,10 +26,12 @@ Emit(fails, nts) ==
     IF fails = {} /\ nts = {} THEN TRUE
     ELSE PrintT(ToJson([ev |-> l, fails |-> fails, nt |-> nts]))
 
+(* C11 asks for "exactly one error item", naming the type and the declared length when a value
+   overruns; the error kind, and its payload when fewer than three bytes remain, are drift only *)
 SameItem(obs, exp) ==
     /\ obs.k = exp.k
     /\ (exp.k = "ok" => obs.t = exp.t /\ Flat(obs.v) = exp.v)
-    /\ (exp.k = "err" => obs.e = exp.e /\ (exp.e = "InvalidTLV" => obs.a = exp.a /\ obs.b = exp.b))
+    /\ (exp.k = "err" /\ exp.e = "InvalidTLV" => obs.a = exp.a /\ obs.b = exp.b)
 
 TraceInit == section = << >> /\ offset = 0 /\ yielded = << >> /\ l = 1 /\ calls = 0
 
@@ -54,8 +56,8 @@ TraceTlvNext ==
                                 ELSE IF r.k \in {"ok", "err"} /\ realCalls + 1 > Len(section) \div 3 + 1
                                      THEN {<< "C03", "more-items-than-n/3+1", "tlv-next" >>}
                                 ELSE {})
-                \cup Sel("DRIFT", IF r.k = "err" /\ exp.k = "err" /\ r.e = exp.e /\ (r.a # exp.a \/ r.b # exp.b)
-                                  THEN {<< "DRIFT", "tlv-error-payload", r.e >>} ELSE {})
+                \cup Sel("DRIFT", IF r.k = "err" /\ exp.k = "err" /\ (r.e # exp.e \/ r.a # exp.a \/ r.b # exp.b)
+                                  THEN {<< "DRIFT", "tlv-error-kind-or-payload", r.e >>} ELSE {})
                 \cup Sel("C05", IF r.k = "err" /\ (r.ecmp = r.einc \/ r.einc # r.inc)
                                 THEN {<< "C05", "is_complete-not-negation-on-error-value", "tlv-item" >>} ELSE {})
                 \cup Sel("C05", IF r.k \in {"ok", "err"} /\ (r.cmp = r.inc \/ (r.k = "ok" /\ r.inc))
